@@ -244,6 +244,23 @@ def _replace(e: ast.AST, target: ast.AST, new: ast.AST) -> ast.AST:
     return out
 
 
+def _never_none(text: str) -> bool:
+    """The expression text denotes a value that cannot be None whatever its operands are: an f-string, a container display,
+    `'const'.format(..)` / `'const' % x`."""
+    try:
+        e = ast.parse(text, mode='eval').body
+    except SyntaxError:
+        return False
+    if isinstance(e, (ast.JoinedStr, ast.Tuple, ast.List, ast.Dict, ast.Set)):
+        return True
+    if isinstance(e, ast.BinOp) and isinstance(e.op, ast.Mod) and isinstance(e.left, ast.Constant) and isinstance(e.left.value, str):
+        return True
+    if isinstance(e, ast.Call) and isinstance(e.func, ast.Attribute) and e.func.attr == 'format' and isinstance(e.func.value, ast.Constant) \
+            and isinstance(e.func.value.value, str):
+        return True
+    return False
+
+
 def _first_ifexp(e: ast.AST) -> T.Optional[ast.IfExp]:
     stack = [e]
     while stack:
@@ -557,6 +574,11 @@ def build(fn: T.Any, body: T.List[ast.stmt], name: str, seed: T.Optional[T.Dict[
                             continue
                         if a.kind == 'is' and a.args[1] == 'None' and normal is not None and normal.nonnull is not None and normal.nonnull(a.args[0]):
                             if v:           # a member of a declared enum is not None
+                                ok = False
+                                break
+                            continue
+                        if a.kind == 'is' and a.args[1] == 'None' and _never_none(a.args[0]):
+                            if v:           # an f-string / a display / a formatted text is a value, never None
                                 ok = False
                                 break
                             continue
